@@ -14,17 +14,130 @@ const (
 
 // Term is a symbolic or constant scalar.
 type Term struct {
-	Sort Sort
-	C    *big.Int // constant int (Sort==SInt && IsConst)
-	B    bool     // constant bool
-	K    bool     // is constant
-	S    string   // SMT text when !K
-	Lo   *big.Int // interval (ints), may be nil = unknown
-	Hi   *big.Int
-	Align int  // known number of trailing zero bits (from << by a constant)
-	QuoA *Term // if set: this term is trunc(QuoA / QuoB), materialised lazily
-	QuoB *Term
-	mat  func() // materialise the defining constraint
+	Sort  Sort
+	C     *big.Int // constant int (Sort==SInt && IsConst)
+	B     bool     // constant bool
+	K     bool     // is constant
+	S     string   // SMT text when !K
+	Lo    *big.Int // interval (ints), may be nil = unknown
+	Hi    *big.Int
+	Align int   // known number of trailing zero bits (from << by a constant)
+	QuoA  *Term // if set: this term is trunc(QuoA / QuoB), materialised lazily
+	QuoB  *Term
+	mat   func()   // materialise the defining constraint
+	Lin   *linForm // exact linear form over atoms (nil: the term is its own atom)
+}
+
+// linForm is c0 + sum coef[i]*atom[i]; it lets division / masking by powers of two be resolved
+// structurally (no fresh variables) when the dividend is a packed sum of small fields.
+type linForm struct {
+	c0   *big.Int
+	coef []*big.Int
+	atom []*Term
+}
+
+const linMax = 24
+
+func linOf(t *Term) *linForm {
+	if t.K {
+		return &linForm{c0: t.C}
+	}
+	if t.Lin != nil {
+		return t.Lin
+	}
+	return &linForm{c0: new(big.Int), coef: []*big.Int{big.NewInt(1)}, atom: []*Term{t}}
+}
+
+func linAdd(a, b *linForm, sign int64) *linForm {
+	r := &linForm{c0: new(big.Int).Add(a.c0, new(big.Int).Mul(b.c0, big.NewInt(sign)))}
+	r.coef = append(r.coef, a.coef...)
+	r.atom = append(r.atom, a.atom...)
+	for i, at := range b.atom {
+		c := new(big.Int).Mul(b.coef[i], big.NewInt(sign))
+		found := false
+		for j := range r.atom {
+			if r.atom[j] == at || r.atom[j].S == at.S {
+				r.coef[j] = new(big.Int).Add(r.coef[j], c)
+				found = true
+				break
+			}
+		}
+		if !found {
+			r.coef = append(r.coef, c)
+			r.atom = append(r.atom, at)
+		}
+	}
+	if len(r.atom) > linMax {
+		return nil
+	}
+	return r
+}
+
+func linScale(a *linForm, k *big.Int) *linForm {
+	r := &linForm{c0: new(big.Int).Mul(a.c0, k)}
+	for i := range a.atom {
+		r.coef = append(r.coef, new(big.Int).Mul(a.coef[i], k))
+		r.atom = append(r.atom, a.atom[i])
+	}
+	return r
+}
+
+// term rebuilds a Term from the linear form (used for structural quotients / remainders).
+func (l *linForm) term() *Term {
+	t := BigC(l.c0)
+	for i := range l.atom {
+		if l.coef[i].Sign() == 0 {
+			continue
+		}
+		if l.coef[i].Cmp(big.NewInt(1)) == 0 {
+			t = AddX(t, l.atom[i])
+		} else {
+			t = AddX(t, MulX(BigC(l.coef[i]), l.atom[i]))
+		}
+	}
+	return t
+}
+
+// splitPow2 splits a non-negative linear term by a positive constant d into (q, r) with t = q*d + r and
+// 0 <= r < d, when that can be read off the structure: every coefficient is either a multiple of d or
+// belongs to the low part whose range provably fits below d.
+func splitByConst(t *Term, d *big.Int) (q, r *Term, ok bool) {
+	if t.Lin == nil || t.Lo == nil || t.Lo.Sign() < 0 || d.Sign() <= 0 {
+		return nil, nil, false
+	}
+	l := t.Lin
+	hiPart := &linForm{c0: new(big.Int)}
+	loPart := &linForm{c0: new(big.Int)}
+	qc, rc := new(big.Int).DivMod(l.c0, d, new(big.Int)) // euclidean: 0 <= rc < d
+	hiPart.c0 = qc
+	loPart.c0 = rc
+	rlo, rhi := new(big.Int).Set(rc), new(big.Int).Set(rc)
+	for i, a := range l.atom {
+		c := l.coef[i]
+		if c.Sign() == 0 {
+			continue
+		}
+		if new(big.Int).Mod(c, d).Sign() == 0 {
+			hiPart.coef = append(hiPart.coef, new(big.Int).Div(c, d))
+			hiPart.atom = append(hiPart.atom, a)
+			continue
+		}
+		if a.Lo == nil || a.Hi == nil {
+			return nil, nil, false
+		}
+		x, y := new(big.Int).Mul(c, a.Lo), new(big.Int).Mul(c, a.Hi)
+		if x.Cmp(y) > 0 {
+			x, y = y, x
+		}
+		rlo.Add(rlo, x)
+		rhi.Add(rhi, y)
+		loPart.coef = append(loPart.coef, c)
+		loPart.atom = append(loPart.atom, a)
+	}
+	if rlo.Sign() < 0 || rhi.Cmp(d) >= 0 {
+		return nil, nil, false
+	}
+	return hiPart.term(), loPart.term(), true
 }
 
 func (t *Term) IsConst() bool { return t.K }
@@ -50,9 +163,9 @@ func (t *Term) SMT() string {
 
 func (t *Term) String() string { return t.SMT() }
 
-func IntC(n int64) *Term   { b := big.NewInt(n); return &Term{Sort: SInt, K: true, C: b, Lo: b, Hi: b} }
+func IntC(n int64) *Term    { b := big.NewInt(n); return &Term{Sort: SInt, K: true, C: b, Lo: b, Hi: b} }
 func BigC(b *big.Int) *Term { return &Term{Sort: SInt, K: true, C: b, Lo: b, Hi: b} }
-func BoolC(b bool) *Term   { return &Term{Sort: SBool, K: true, B: b} }
+func BoolC(b bool) *Term    { return &Term{Sort: SBool, K: true, B: b} }
 
 var True, False = BoolC(true), BoolC(false)
 
@@ -98,6 +211,8 @@ type Ctx struct {
 	Decls  []string // declare-const lines (global to solver session)
 	Side   []*Term  // definitional constraints (must be asserted with PC)
 	OnDecl func(string)
+
+	quoMemo map[string][2]*Term
 }
 
 func (c *Ctx) freshInt(prefix string) string {
@@ -176,7 +291,7 @@ func AddX(a, b *Term) *Term { // exact
 	if b.K && b.C.Sign() == 0 {
 		return a
 	}
-	return &Term{Sort: SInt, S: fmt.Sprintf("(+ %s %s)", a.SMT(), b.SMT()), Lo: addI(a.Lo, b.Lo), Hi: addI(a.Hi, b.Hi)}
+	return &Term{Sort: SInt, S: fmt.Sprintf("(+ %s %s)", a.SMT(), b.SMT()), Lo: addI(a.Lo, b.Lo), Hi: addI(a.Hi, b.Hi), Lin: linAdd(linOf(a), linOf(b), 1)}
 }
 func SubX(a, b *Term) *Term {
 	if a.K && b.K {
@@ -185,13 +300,18 @@ func SubX(a, b *Term) *Term {
 	if b.K && b.C.Sign() == 0 {
 		return a
 	}
-	return &Term{Sort: SInt, S: fmt.Sprintf("(- %s %s)", a.SMT(), b.SMT()), Lo: subI(a.Lo, b.Hi), Hi: subI(a.Hi, b.Lo)}
+	return &Term{Sort: SInt, S: fmt.Sprintf("(- %s %s)", a.SMT(), b.SMT()), Lo: subI(a.Lo, b.Hi), Hi: subI(a.Hi, b.Lo), Lin: linAdd(linOf(a), linOf(b), -1)}
 }
 func MulX(a, b *Term) *Term {
 	if a.K && b.K {
 		return BigC(new(big.Int).Mul(a.C, b.C))
 	}
 	t := &Term{Sort: SInt, S: fmt.Sprintf("(* %s %s)", a.SMT(), b.SMT())}
+	if a.K {
+		t.Lin = linScale(linOf(b), a.C)
+	} else if b.K {
+		t.Lin = linScale(linOf(a), b.C)
+	}
 	if a.Lo != nil && a.Hi != nil && b.Lo != nil && b.Hi != nil {
 		cs := []*big.Int{new(big.Int).Mul(a.Lo, b.Lo), new(big.Int).Mul(a.Lo, b.Hi), new(big.Int).Mul(a.Hi, b.Lo), new(big.Int).Mul(a.Hi, b.Hi)}
 		lo, hi := cs[0], cs[0]
@@ -213,6 +333,19 @@ func (c *Ctx) QuoRem(a, b *Term) (q, r *Term) {
 	if a.K && b.K {
 		qq, rr := new(big.Int).QuoRem(a.C, b.C, new(big.Int))
 		return BigC(qq), BigC(rr)
+	}
+	if b.K {
+		if q, r, ok := splitByConst(a, b.C); ok {
+			return q, r
+		}
+		key := a.SMT() + "/" + b.C.String()
+		if c.quoMemo == nil {
+			c.quoMemo = map[string][2]*Term{}
+		}
+		if m, ok := c.quoMemo[key]; ok {
+			return m[0], m[1]
+		}
+		defer func() { c.quoMemo[key] = [2]*Term{q, r} }()
 	}
 	qn, rn := c.freshInt("q"), c.freshInt("r")
 	q, r = symInt(qn, nil, nil), symInt(rn, nil, nil)
@@ -237,6 +370,11 @@ func (c *Ctx) QuoRem(a, b *Term) (q, r *Term) {
 			return
 		}
 		done = true
+		if b.K && b.C.Sign() > 0 && a.Lo != nil && a.Lo.Sign() >= 0 {
+			c.Side = append(c.Side, &Term{Sort: SBool, S: fmt.Sprintf("(and (= %s (+ (* %s %s) %s)) (<= 0 %s) (< %s %s))",
+				a.SMT(), qn, b.SMT(), rn, rn, rn, b.SMT())})
+			return
+		}
 		c.Side = append(c.Side, &Term{Sort: SBool, S: fmt.Sprintf(
 			"(and (= %s (+ (* %s %s) %s)) (< (abs %s) (abs %s)) (or (= %s 0) (= (> %s 0) (> %s 0))))",
 			a.SMT(), qn, b.SMT(), rn, rn, b.SMT(), rn, rn, a.SMT())})
